@@ -252,6 +252,8 @@ func (s *Sink) Write(p []byte) (int, error) {
 // ---- writer stacks ---------------------------------------------------------------------
 
 // Stack names: "W1" sink as plain io.Writer (goldmark wraps it in its own bufio.Writer);
+// "W2k:<size>" ONE bufio.Writer per caller that lives as long as the caller and receives
+// document after document (fault-free calls only; see execOp);
 // "W1f"/"W1s"/"W1b" the same with a richer method set (see flushSink, stringSink, bufferSink);
 // "W2:<size>" caller-supplied bufio.Writer of that size; "W2p:<size>" the same with a page
 // header already pending in it when goldmark is called, flushed by the caller afterwards; "W3" harness unbuffered BufWriter
@@ -428,6 +430,8 @@ func genStack(r *Rng) string {
 	case 1:
 		if g := NewRng(r.Next()); g.Chance(1, 4) {
 			return fmt.Sprintf("W2p:%d", pick(r, w2Sizes))
+		} else if g.Chance(1, 3) {
+			return fmt.Sprintf("W2k:%d", pick(r, []int{64, 4096}))
 		}
 		return fmt.Sprintf("W2:%d", pick(r, w2Sizes))
 	}
